@@ -53,10 +53,11 @@ def history (cfg : Cfg) (P : Prog) (idle : Status) (ops : List Op) : List Ev := 
 
 theorem okAll_parts {ml : Nat} {o : Obs} {e : Ev} (h : okAll ml o e = true) :
     okInit o e = true ∧ okCleanupOnce o e = true ∧ okCleanupNotInterrupted o e = true ∧ okStopInactive o e = true ∧
-    okLastStart o e = true ∧ okPickedUp o e = true ∧ okBound ml o e = true ∧ okNoRaise o e = true := by
+    okLastStart o e = true ∧ okPickedUp o e = true ∧ okBound ml o e = true ∧ okNoRaise o e = true ∧
+    okStopPosted o e = true ∧ okStartPosted o e = true := by
   simp only [okAll, Bool.and_eq_true] at h
-  obtain ⟨⟨⟨⟨⟨⟨⟨a, b⟩, c⟩, d⟩, e'⟩, f⟩, g⟩, i⟩ := h
-  exact ⟨a, b, c, d, e', f, g, i⟩
+  obtain ⟨⟨⟨⟨⟨⟨⟨⟨⟨a, b⟩, c⟩, d⟩, e'⟩, f⟩, g⟩, i⟩, j⟩, k⟩ := h
+  exact ⟨a, b, c, d, e', f, g, i, j, k⟩
 
 /-- positional form of the call bound: at every call of a state function, fewer than `2·maxloops` calls were made
 since the cycle began -/
@@ -67,7 +68,7 @@ theorem cycle_calls_bounded_positional (cfg : Cfg) (P : Prog) (idle : Status) (o
 /-- `raised` never occurs, as a clause over histories -/
 theorem cycle_never_raises_positional (cfg : Cfg) (P : Prog) (idle : Status) (ops : List Op) :
     NeverRaises idle (history cfg P idle ops) :=
-  (run_good cfg P idle ops).mono fun _ _ h => (okAll_parts h).2.2.2.2.2.2.2
+  (run_good cfg P idle ops).mono fun _ _ h => (okAll_parts h).2.2.2.2.2.2.2.1
 
 /-- The first call of a state after a transition — and only that — sees the init flag, and the function called is
 the state entered most recently. -/
@@ -88,18 +89,23 @@ theorem cleanup_not_interrupted (cfg : Cfg) (P : Prog) (idle : Status) (ops : Li
   (run_good cfg P idle ops).mono fun _ _ h => (okAll_parts h).2.2.1
 
 /-- After stop the machine is inactive at the end of the first cycle that saw no further request and leaves no
-cleanup sequence in progress. -/
+cleanup sequence in progress; and a stop request to a module (`stop_machine`) that finds a state function active —
+of a normal run or of a cleanup sequence in progress, with or without a start waiting behind it — has posted its
+stop to the machine when it returns. -/
 theorem stop_makes_inactive (cfg : Cfg) (P : Prog) (idle : Status) (ops : List Op) :
     StopMakesInactive idle (history cfg P idle ops) :=
-  (run_good cfg P idle ops).mono fun _ _ h => (okAll_parts h).2.2.2.1
+  ⟨(run_good cfg P idle ops).mono fun _ _ h => (okAll_parts h).2.2.2.1,
+   (run_good cfg P idle ops).mono fun _ _ h => (okAll_parts h).2.2.2.2.2.2.2.2.1⟩
 
 /-- What the machine takes is the most recent request; a start taken is entered next, before any state call, with
 the requested cleanup and exactly the requested attribute update; no request is left waiting at the end of a cycle
-that saw no further request and leaves no cleanup sequence in progress. -/
+that saw no further request and leaves no cleanup sequence in progress; a start request to a module
+(`start_machine`) has posted its start to the machine when it returns. -/
 theorem last_start_wins (cfg : Cfg) (P : Prog) (idle : Status) (ops : List Op) :
     LastStartWins idle (history cfg P idle ops) :=
   ⟨(run_good cfg P idle ops).mono fun _ _ h => (okAll_parts h).2.2.2.2.1,
-   (run_good cfg P idle ops).mono fun _ _ h => (okAll_parts h).2.2.2.2.2.1⟩
+   (run_good cfg P idle ops).mono fun _ _ h => (okAll_parts h).2.2.2.2.2.1,
+   (run_good cfg P idle ops).mono fun _ _ h => (okAll_parts h).2.2.2.2.2.2.2.2.2⟩
 
 /-- the requests a program / an operation sequence issues keep to busy status codes -/
 def busyReq (r : Rules) : Req → Prop
@@ -226,6 +232,44 @@ example : cnt isCall (run (cfg0 false) chainProg (SM.initial (100, ""))
 example : judge (100, "") 2 false rules0 (run (cfg0 false) chainProg (SM.initial (100, ""))
     [.req (.start 0 (some 0) [(1, 5)] none), .cycle, .cycle]).trace = [] := by decide +kernel
 
+/-! ### a stop request while a cleanup sequence with a start waiting behind it is in progress -/
+
+/-- state 0 retries for ever; the cleanup returns state 2, which retries and finishes in its third call -/
+def cleanupProg : Prog :=
+  { state := fun tr s => { posts := [], fin := none,
+                           ret := if s = 2 ∧ 4 ≤ cnt isCall { SM.initial (100, "") with trace := tr } then .finish else .retry },
+    clean := fun _ _ => { posts := [], fin := none, ret := .next 2 },
+    env := fun _ => [] }
+
+/-- `start_machine(st_0, cleanup=cl_0)`, a cycle, `start_machine(st_3)` (restart: the cleanup sequence begins), a cycle -/
+def restartOps : List Op := [.req (.start 0 (some 0) [] none), .cycle, .req (.start 3 none [(1, 5)] none), .cycle]
+
+/-- … now the cleanup sequence is in progress (state 2 active, reason set) with the start of state 3 waiting behind it -/
+example : let σ := run (cfg0 true) cleanupProg (SM.initial (100, "")) restartOps;
+    (σ.statefunc, σ.reason, σ.nextTask) = (some 2, some .restart, some (.start 3 none [(1, 5)] none)) := by decide +kernel
+
+/-- `stop_machine` now, then three cycles: the stop is posted, the cleanup sequence is finished (not restarted), the
+superseded start is never entered, the machine ends inactive with the stopped status — and the monitors accept the
+history (`stop_makes_inactive` and `last_start_wins` are about histories in which this really happens) -/
+example : let σ := run (cfg0 true) cleanupProg (SM.initial (100, "")) (restartOps ++ [.req (.stop (100, "stopped")), .cycle, .cycle, .cycle]);
+    (σ.statefunc, σ.status, σ.nextTask, cnt (· == .cleanup 0) σ, cnt (· == .enter (some 3)) σ) =
+      (none, (100, "stopped"), none, 1, 0) ∧ judge (100, "") 2 true rules0 σ.trace = [] := by decide +kernel
+
+/-- the monitor is not vacuous either: the same history with a `stop_machine` that returns without having posted its
+stop is rejected, at the return of the request, by the clause `stop_makes_inactive` -/
+example : (judge (100, "") 2 true rules0
+      ((run (cfg0 true) cleanupProg (SM.initial (100, "")) restartOps).trace ++ [.reqStop, .reqDone false])).map
+        (fun v => (v.1, v.2.name)) = [(28, "stop_makes_inactive:stop-request-not-posted")] := by decide +kernel
+
+/-- … and a `start_machine` that returns without having posted its start is rejected by `last_start_wins` -/
+example : (judge (100, "") 2 true rules0 [.reqStart, .status (300, "st 0"), .reqDone true]).map
+        (fun v => (v.1, v.2.name)) = [(2, "last_start_wins:start-request-not-posted")] := by decide +kernel
+
+/-- a stop request that finds the machine inactive (here: a start is waiting, not yet taken) owes nothing -/
+example : judge (100, "") 2 true rules0
+      (run (cfg0 true) cleanupProg (SM.initial (100, "")) [.req (.start 0 none [] none), .req (.stop (100, "stopped"))]).trace = [] := by
+  decide +kernel
+
 /-! ### `start_machine` preempted by a cycle: the busy clause fails -/
 
 /-- state 0 retries once, then finishes; state 3 (no status attached) retries -/
@@ -252,7 +296,7 @@ theorem busy_until_finished_fails_when_preempted :
     ¬ BusyUntilFinished (100, "") rules0 raceHistory := by
   intro h
   have hv : (judge (100, "") 2 true rules0 raceHistory).map (·.2) = [.busy, .busy, .busy] := by decide +kernel
-  have hsplit : raceHistory = raceHistory.take 21 ++ Ev.status (100, "") :: raceHistory.drop 22 := by decide +kernel
+  have hsplit : raceHistory = raceHistory.take 22 ++ Ev.status (100, "") :: raceHistory.drop 23 := by decide +kernel
   have := h.1 _ _ _ hsplit
   revert this
   decide +kernel
